@@ -65,6 +65,7 @@ func init() {
 	register("C10", func(s *simrt.Sim) *Result { return RunMux(s, MuxProfile{Name: "C10"}) })
 	register("C11", func(s *simrt.Sim) *Result { return RunMux(s, MuxProfile{Name: "C11", RPCs: true}) })
 	register("C11race", func(s *simrt.Sim) *Result { return RunMux(s, MuxProfile{Name: "C11race", Race: true}) })
+	register("C19mux", func(s *simrt.Sim) *Result { return RunMux(s, MuxProfile{Name: "C19mux", TLS: true}) })
 	register("C08", func(s *simrt.Sim) *Result {
 		return RunRoute(s, RouteProfile{Name: "C08", Faults: true, Churn: true, Cleanup: true})
 	})
